@@ -126,6 +126,23 @@ class SymCtx:
         """exact constant (Fraction/float/int) as a symbolic-compatible number"""
         return SymReal(_t(x)) if isinstance(x, Fraction) else x
 
+    def frac(self, x):
+        t = _t(x)
+        self.ex.has_int = True
+        return SymReal(t - z3.ToReal(z3.ToInt(t)))
+
+    def floor(self, x):
+        self.ex.has_int = True
+        return SymInt(z3.ToInt(_t(x)))
+
+    def idiv(self, x, k):
+        self.ex.has_int = True
+        return SymInt(x.e / k) if isinstance(x, SymInt) else int(x) // k
+
+    def imod(self, x, k):
+        self.ex.has_int = True
+        return SymInt(x.e % k) if isinstance(x, SymInt) else int(x) % k
+
     def absval(self, x):
         t = _t(x)
         return SymReal(z3.If(t >= 0, t, -t))
